@@ -173,6 +173,10 @@ func validateCurves(config *Configuration) error {
 			if !sensorIdExists(curveConfig.Linear.Sensor, config) {
 				return fmt.Errorf("curve %s: no sensor definition with id '%s' found", curveConfig.ID, curveConfig.Linear.Sensor)
 			}
+
+			if curveConfig.Linear.Steps != nil && len(curveConfig.Linear.Steps) <= 0 {
+				return fmt.Errorf("curve %s: steps must not be empty", curveConfig.ID)
+			}
 		}
 
 		if curveConfig.PID != nil {
